@@ -441,8 +441,14 @@ func TestC32Matrix(t *testing.T) {
 	rec := ev.New("C32", "matrix")
 	defer rec.Flush()
 	bodies := 3 * ev.Scale()
+	k, n := ev.Shard() // methods are dealt round-robin to the shards of the run
+	dealt := 0
 	run := func(svc *service, pristine, live target, refresh func()) {
 		for mi := range svc.methods {
+			dealt++
+			if dealt%n != k {
+				continue
+			}
 			m := &svc.methods[mi]
 			_, bodyFd, _ := m.newRequest()
 			g := genBody(bodyFd)
